@@ -16,6 +16,7 @@ import (
 	"sync/atomic"
 	"time"
 
+	jose "github.com/go-jose/go-jose/v4"
 	"github.com/rs/cors"
 	"golang.org/x/oauth2"
 
@@ -433,6 +434,8 @@ func (w *world) fault(req *http.Request, u *url.URL) (*http.Response, error, boo
 			time.Sleep(3 * time.Millisecond)
 		case 6:
 			return status(req, 200, "application/json", "<html>not json</html>"), nil, true
+		case 7:
+			return status(req, 200, "application/json", w.mixedJWKS), nil, true
 		}
 		return nil, nil, false
 	}
@@ -481,13 +484,20 @@ type world struct {
 	outlog   []outReq
 	tok2     *tokens
 	runID    int // fresh per world: identifiers derived from it are shared by all instances of ONE run, never across runs
-	bounce   atomic.Bool
-	bounced  atomic.Int64
+	// caller-supplied VALUES that may be handed to several constructors (LArg 1..4) and a key slice (LSlice 7)
+	issuerFns [2]func(bool) (op.IssuerFromRequest, error)
+	sharedCfg *op.Config
+	sharedKS  *op.OpenIDKeySet
+	keySlice  []jose.JSONWebKey
+	optCache  map[string]op.Option
+	bounce    atomic.Bool
+	bounced   atomic.Int64
 	// fault injection (race tier)
 	jwksMode   atomic.Int32
 	errMode    atomic.Int32
 	faultCount atomic.Int64
 	otherJWKS  string
+	mixedJWKS  string
 	rts        [3]*memRT
 	clients    [3]*http.Client // [0] = httphelper.DefaultHTTPClient
 	// caller-supplied slices
@@ -539,6 +549,15 @@ func newWorld(cfg worldCfg) *world {
 	}
 	w.backend = f
 	w.runID = runCounter
+	w.issuerFns = [2]func(bool) (op.IssuerFromRequest, error){op.IssuerFromHost(""), op.IssuerFromForwardedOrHost("")}
+	w.sharedCfg = provCfg()
+	w.sharedKS = &op.OpenIDKeySet{Storage: f.Store}
+	w.optCache = map[string]op.Option{}
+	w.keySlice = mkSlice(cfg.spare,
+		jose.JSONWebKey{Key: &opfix.ECKey("c20-third").PublicKey, KeyID: "ec-1", Algorithm: "ES256", Use: "sig"},
+		jose.JSONWebKey{Key: &opfix.RSAKey().PublicKey, KeyID: "rsa-1", Algorithm: "RS256", Use: "sig"},
+		jose.JSONWebKey{Key: &opfix.ECKey("c20-enc").PublicKey, KeyID: "enc-1", Use: "enc"},
+		jose.JSONWebKey{Key: &opfix.RSAKey().PublicKey, KeyID: "", Use: ""})
 	st2 := opfix.NewStd()
 	st2.Signing = &refstore.SigningKey{KID: opfix.DefaultSigning().KID, Alg: opfix.DefaultSigning().Alg, Priv: tenant2Key}
 	if w.backend2, err = opfix.New(st2, opfix.Options{Issuer: issuer2}); err != nil {
@@ -651,10 +670,14 @@ func (w *world) snapshot(inst int, kind string) []lv {
 			add(fmt.Sprintf("(LClient %d %s)", i, f), vals[j])
 		}
 	}
-	for i, s := range []any{w.interceptors, w.atOpts, w.idhOpts, w.rpScopes, w.rpVerOpts, w.srvOpts} {
+	for i, s := range []any{w.interceptors, w.atOpts, w.idhOpts, w.rpScopes, w.rpVerOpts, w.srvOpts, w.keySlice} {
 		add(fmt.Sprintf("(LSlice %d)", i+1), w.reg.id(sliceKey(s)))
 	}
 	add("(LCfg 1)", w.reg.id(fmt.Sprintf("cfg:%s|%s|%s|%s|%+v", w.oauthCfg.ClientID, w.oauthCfg.ClientSecret, w.oauthCfg.RedirectURL, sliceKey(w.oauthCfg.Scopes), w.oauthCfg.Endpoint)))
+	add("(LArg 1)", w.reg.id(fnKey(w.issuerFns[0])))
+	add("(LArg 2)", w.reg.id(fnKey(w.issuerFns[1])))
+	add("(LArg 3)", w.reg.id(fmt.Sprintf("opcfg:%+v", *w.sharedCfg)))
+	add("(LArg 4)", w.reg.id(ptrKey(w.sharedKS)))
 	add("(LStor 1)", w.reg.id(sliceKey(w.devState.Audience)))
 	if w.flowState != nil {
 		add("(LStor 2)", w.reg.id(sliceKey(w.flowState.Audience)))
